@@ -121,6 +121,27 @@ class _Timeout(Exception):
     pass
 
 
+class RealCodeRaised(Exception):
+    """A call into /repo code that the simulation makes on behalf of an honest
+    party (a builder, a certificate round trip, ...) raised.  That is a
+    verdict about the code under test, not a harness problem."""
+
+    def __init__(self, what, exc):
+        super().__init__('%s raised %s: %s' % (what, type(exc).__name__, exc))
+        self.what = what
+        self.exc = exc
+
+
+def real(what, fn, *args, **kw):
+    """call real /repo code on behalf of an honest party"""
+    try:
+        return fn(*args, **kw)
+    except (_Timeout, HarnessError):
+        raise
+    except Exception as e:
+        raise RealCodeRaised(what, e)
+
+
 def _alarm(signum, frame):
     raise _Timeout()
 
@@ -138,7 +159,12 @@ def _execute_here(mod, plan, want_trace):
     signal.alarm(RUN_TIMEOUT_S)
     try:
         run = Run()
-        mod.execute(plan, run)
+        try:
+            mod.execute(plan, run)
+        except RealCodeRaised as e:
+            run.violation('honest_call_does_not_raise',
+                          '%s/real_code_raised/%s/%s' % (mod.PID, e.what, type(e.exc).__name__),
+                          step=getattr(run, 'cur_step', None), detail={'error': str(e)[:300]})
         res = run.result()
         if want_trace:
             res['trace'] = run.trace
